@@ -379,6 +379,15 @@ def corpus():
         P2 + 'message M { reserved 1, 5 to 9, 1000 to max; reserved "a", "b"; optional int32 c = 2; extensions 100 to 199, 300; }\n'
         "enum E { E0 = 0; reserved -5 to -1, 100 to max; reserved \"OLD\"; }\n",
     ]
+    hand += [
+        # a required extension, an enum default given as a number, two extensions with the same tag
+        P2 + "message M { extensions 100 to 200; }\nextend M { required int32 x = 100; }\n",
+        P2 + "enum E { A = 0; B = -1; }\nmessage M { optional E e = 1 [default = -1]; }\n",
+        P2 + "message M { extensions 100 to 200; }\nextend M { optional int32 x = 100; optional int32 y = 100; }\n",
+        # negative zero written as an integer, a float default that is not a short double
+        P2 + "message M { optional double d = 1 [default = -0]; }\n",
+        P2 + "message M { optional float f = 1 [default = 0.1]; }\n",
+    ]
     for t in hand:
         if t is not None:
             out.append(({"t.proto": t}, ["t.proto"], "corpus"))
@@ -398,6 +407,7 @@ def norm_err(e):
     e = re.sub(r"[`\"'][^`\"']*[`\"']", "_", e)
     e = re.sub(r"\b\w+(\.\w+)+\b", "_", e)          # qualified names and file names
     e = re.sub(r"^(message|field|enum|extension|method|service|oneof|file) [\w.]+: ", "", e)
+    e = re.sub(r"\bfor message \w+", "for message _", e)
     e = re.sub(r"-?\d+", "N", e)
     e = re.sub(r"[^A-Za-z_N]+", "-", e).strip("-")
     return e[:72].rstrip("-")
@@ -487,7 +497,7 @@ def three_way(ctx, terms, meta):
     oracle; this stage adds which side the specification is on and counts the three-way agreements."""
     import miniproto_gen as G
     rng = ctx.rng
-    progs = G.gen_cases(rng, ctx.budget(25, 1500), 1, small=True)
+    progs = G.gen_cases(rng, ctx.budget(15, 1500), 1, small=True)
     texts = G.render_sets(rng, progs)
     orders = [[f["name"] for f in files] for _, files in progs]
     so = ctx.impl("miniproto", G.compile_inputs(texts, orders))
@@ -577,10 +587,13 @@ def run(ctx):
             if mu is not None:
                 base = (mu[0], mu[1], "near-valid:" + mu[2])
         cases.append(base)
-    nsample = ctx.budget(60, 600)
+    # the field trees of a sample of (small) file sets go to coqc for the comparison-function correspondence
+    nsample = ctx.budget(30, 600)
+    small = [k for k, c in enumerate(cases) if sum(len(t) for t in c[0].values()) < ctx.budget(1500, 4000)]
+    want = set(small[::max(1, len(small) // nsample)][:nsample])
     ins = []
     for k, (files, request, klass) in enumerate(cases):
-        ins.append({"mode": "compile", "files": files, "request": request, "trees": k % max(1, len(cases) // nsample) == 0})
+        ins.append({"mode": "compile", "files": files, "request": request, "trees": k in want})
     outs = ctx.impl("dualcompile", ins)
     terms, meta = [], []
     for (files, request, klass), i, o in zip(cases, ins, outs):
@@ -594,8 +607,8 @@ def run(ctx):
         ctx.notes.append("three-way stage (stable vs experimental vs the C01/C02 specification) not run: %s: %s" % (type(e).__name__, str(e)[:300]))
     # ---- the comparison against perturbed descriptors: what it ignores and what it must see
     pins = []
-    pbase = [c for c in cases if c[2] in ("program", "focus", "corpus")]
-    for k in range(ctx.budget(5, 40)):
+    pbase = [c for c in cases if c[2] in ("focus", "corpus") and sum(len(t) for t in c[0].values()) < 2500]
+    for k in range(ctx.budget(3, 40)):
         files, request, _ = pbase[rng.below(len(pbase))]
         for kind, want_equal in PERTURB:
             pins.append({"mode": "perturb", "files": files, "request": request, "index": 0, "kind": kind, "_want": want_equal})
